@@ -7,6 +7,7 @@ import PysnarkModel.Driver.ProtoSelect
 import PysnarkModel.Driver.ProtoStruct
 import PysnarkModel.Driver.ProtoHash
 import PysnarkModel.Driver.ProtoZkif
+import PysnarkModel.Driver.ProtoQaptools
 open Pysnark Pysnark.Proto
 
 def handle (line : String) : String :=
@@ -20,6 +21,7 @@ def handle (line : String) : String :=
   | "S" :: rest => ProtoSelect.handleSelect rest
   | "K" :: rest => ProtoStruct.handlePack rest
   | "Z" :: rest => ProtoZkif.handleZkif rest
+  | "Q" :: rest => ProtoQaptools.handleQap rest
   | "PH" :: rest => ProtoHash.handlePoseidon rest
   | "NI" :: rest => ProtoStruct.handleSnark true rest
   | "NO" :: rest => ProtoStruct.handleSnark false rest
